@@ -11,6 +11,7 @@ pub mod c14;
 pub mod c16;
 pub mod c17;
 pub mod c19;
+pub mod c20;
 pub mod ics;
 pub mod ms;
 pub mod stake;
@@ -36,6 +37,7 @@ pub fn get(id: &str) -> Option<Box<dyn Monitor>> {
         "C17" => Some(Box::new(c17::C17)),
         "C18" => Some(Box::new(ics::Ics { prop: "C18" })),
         "C19" => Some(Box::new(c19::C19)),
+        "C20" => Some(Box::new(c20::C20)),
         _ => None,
     }
 }
